@@ -5,6 +5,131 @@ from .engine import Cfg
 from . import synclib
 
 
+DAY = 86400000
+
+
+def _base_history(rnd):
+    """one peer, 4..8 writes over several days: few rows per day, so that days empty out. Returns the op lines
+    (clock lines included) with None where a recomputation request may be inserted (after every write)."""
+    ops, rows, t, nrow, sigs = [], {}, 1000, 0, list(range(2000001, 2000400))
+    rnd.shuffle(sigs)
+    nwrites = rnd.randint(4, 8)
+    for _ in range(nwrites):
+        step = rnd.choice([1, DAY, DAY, DAY + 7, 2 * DAY + 3]) if ops else 0
+        if step:
+            t += step
+            ops.append("clock t=%d" % t)
+        elif not ops:
+            ops.append("clock t=%d" % t)
+        live = sorted(rows)
+        kind = rnd.choice(["new", "new", "upd", "upd", "del", "move"]) if live else "new"
+        if kind == "new" or not live:
+            nrow += 1
+            ent = 1 if rnd.random() < 0.35 else 0
+            room = 2 if rnd.random() < 0.15 else 1
+            rows[nrow] = (room, ent)
+            ops.append("new p=0 row=%d room=%d ent=%d val=%d sig=%d" % (nrow, room, ent, nrow, sigs.pop()))
+        elif kind == "upd":
+            r = rnd.choice(live)
+            ops.append("upd p=0 row=%d val=%d sig=%d" % (r, 100 + len(ops), sigs.pop()))
+        elif kind == "move":
+            r = rnd.choice(live)
+            room = 3 - rows[r][0]
+            rows[r] = (room, rows[r][1])
+            ops.append("upd p=0 row=%d val=%d sig=%d room=%d" % (r, 100 + len(ops), sigs.pop(), room))
+        else:
+            r = rnd.choice(live)
+            del rows[r]
+            ops.append("del p=0 row=%d dsig=%d" % (r, sigs.pop()))
+        t += 1          # two writes never share a millisecond
+        ops.append(None)
+    return ops
+
+
+def window_family(seed, nbases, path):
+    """writes `path`; every base history under: no intermediate recomputation, one after every write, one after a
+    single write (each position), and a few random placements; always one at the end. Deterministic in `seed`."""
+    import random
+    rnd = random.Random(1000003 * seed + 9)
+    out, cid = [], 0
+    for _ in range(nbases):
+        base = _base_history(rnd)
+        slots = [i for i, o in enumerate(base) if o is None]
+        k = len(slots)
+        placements = [set(), set(range(k))] + [{i} for i in range(k - 1)]
+        for _ in range(3):
+            placements.append({i for i in range(k) if rnd.random() < 0.5})
+        seen = set()
+        for pl in placements:
+            key = frozenset(pl | {k - 1})
+            if key in seen: continue
+            seen.add(key)
+            out.append("case id=%d peers=1 rights=a" % cid); cid += 1
+            j = 0
+            for o in base:
+                if o is None:
+                    if j in key: out.append("compute p=0")
+                    j += 1
+                else:
+                    out.append(o)
+    with open(path, "w") as f:
+        f.write("\n".join(out) + "\n")
+    return cid
+
+
+def unrefs_family(seed, ncases, path):
+    """one deletion query with several reference-deletion entries (`unrefs`): source rows last modified on different
+    days, some entries naming a reference that does not exist (never did, or was deleted before); every touched day
+    must be marked — the day each re-dated row leaves as well as the day it arrives on."""
+    import random
+    rnd = random.Random(7919 * seed + 3)
+    out = []
+    for cid in range(ncases):
+        sigs = list(range(2000001, 2000300)); rnd.shuffle(sigs)
+        out.append("case id=%d peers=1 rights=a" % cid)
+        t, nrows = 1000, rnd.randint(3, 5)
+        out.append("clock t=%d" % t)
+        for r in range(1, nrows + 1):
+            if r > 1 and rnd.random() < 0.6:
+                t += rnd.choice([DAY, 2 * DAY + 5]); out.append("clock t=%d" % t)
+            else:
+                t += 1; out.append("clock t=%d" % t)
+            out.append("new p=0 row=%d room=1 ent=0 val=%d sig=%d" % (r, r, sigs.pop()))
+        refs = set()
+        for _ in range(rnd.randint(1, 4)):
+            a, b = rnd.randint(1, nrows), rnd.randint(1, nrows)
+            if a == b or (a, b) in refs: continue
+            t += rnd.choice([1, DAY, DAY + 11]); out.append("clock t=%d" % t)
+            out.append("ref p=0 row=%d to=%d sig=%d" % (a, b, sigs.pop())); refs.add((a, b))
+        if refs and rnd.random() < 0.4:
+            a, b = rnd.choice(sorted(refs))
+            t += rnd.choice([1, DAY]); out.append("clock t=%d" % t)
+            out.append("unref p=0 row=%d to=%d sig=%d dsig=%d" % (a, b, sigs.pop(), sigs.pop()))   # gone before the query
+        if rnd.random() < 0.7: out.append("compute p=0")
+        for _ in range(rnd.randint(1, 2)):
+            t += rnd.choice([DAY, DAY + 3, 3 * DAY]); out.append("clock t=%d" % t)
+            k = rnd.randint(2, min(4, nrows))
+            srcs = rnd.sample(range(1, nrows + 1), k)
+            present = [x for x in srcs if any(a == x for a, _ in refs)]
+            # an absent entry first, a present one later, as often as the history allows
+            if present and rnd.random() < 0.7:
+                absent = [x for x in srcs if x not in present]
+                srcs = absent + present if absent else srcs
+            tos = []
+            for x in srcs:
+                cands = [b for a, b in sorted(refs) if a == x]
+                if cands and rnd.random() < 0.75: tos.append(rnd.choice(cands))
+                else: tos.append(rnd.choice([y for y in range(1, nrows + 1) if y != x]))
+            out.append("unrefs p=0 rows=%s tos=%s sigs=%s dsigs=%s" % (
+                ",".join(map(str, srcs)), ",".join(map(str, tos)),
+                ",".join(str(sigs.pop()) for _ in srcs), ",".join(str(sigs.pop()) for _ in srcs)))
+            if rnd.random() < 0.5: out.append("compute p=0")
+        out.append("compute p=0")
+    with open(path, "w") as f:
+        f.write("\n".join(out) + "\n")
+    return ncases
+
+
 class C09(Cfg):
     prop = "C09"
     prop_module = "DiscretModel.Props.C09"
@@ -43,6 +168,14 @@ class C09(Cfg):
 
     def streams(self, tier, seed, work, dv):
         res = []
+        # the window of compute (seed row, emptied days, several entities): every history is run under several
+        # placements of the recomputation requests — same writes, same final content, different windows
+        path = os.path.join(work, "window_splits.ops")
+        n = window_family(seed, 10 if tier == "quick" else 150, path)
+        res.append(("window splits seed=%d cases=%d" % (seed, n), path, False))
+        path = os.path.join(work, "unrefs.ops")
+        n = unrefs_family(seed, 40 if tier == "quick" else 600, path)
+        res.append(("multi-entry reference deletions seed=%d cases=%d" % (seed, n), path, False))
         plan = [("C09", 160, 22)] if tier == "quick" else [("C09", 4000, 26), ("C03", 300, 22)]
         for prop, n, ln in plan:
             path = os.path.join(work, "hist_%s.ops" % prop)
